@@ -30,8 +30,8 @@ def _norm(v):
     if t is tuple:
         return tuple(_norm(x) for x in v)
     mod = t.__module__
-    if mod == "numpy":
-        return ("numpy", t.__name__, getattr(v, "dtype", None) and str(v.dtype), v.tolist())
+    if mod == "numpy" and t.__name__ == "ndarray":  # arrays only: numpy scalars compare like Python numbers and may be labels
+        return ("ndarray", str(v.dtype), v.tolist())
     if mod == "collections" and t.__name__ == "deque":
         return ("deque", [_norm(x) for x in v])
     if t is bytearray:
